@@ -42,7 +42,35 @@ def _replay_chunk(task):
     return out
 
 
-def edited(rep, args, d):
+def impl_layer(rep, args, res):
+    """ViewImpl.tla on the recorded stage states: transcriptions of the two iterators satisfy the contract (design) and give the very
+    order the real iterators gave (conformance).  DRIFT-level."""
+    live = [r for r in res if r["ncases"]]
+    if not live:
+        return
+    results = tlc.run_shards("ViewImpl", "INIT Init\nNEXT Next\nINVARIANT NoDrift\nCHECK_DEADLOCK FALSE\n", [{"CASES": r["path"]} for r in live],
+                             jobs=args.jobs, workers=1, timeout=3000, heap="3g")
+    tlc.require_ok(results, "ViewImpl")
+    n = 0
+    kinds: Dict[str, int] = {}
+    for r, tr in zip(live, results):
+        n += tr.distinct
+        bycase = {s["case"]: s for s in r["summary"] if s.get("build") == "ok" and s.get("case")}
+        for v in tr.violations:
+            st = tlc.parse_state(v["states"][0])
+            for k in st["drift"]:
+                kinds[k] = kinds.get(k, 0) + 1
+            rep.add_drift({"iterators": sorted(st["drift"]), "id": bycase.get(st["tid"], {}).get("id"), "stage": st["sid"]})
+    for k, c in sorted(kinds.items()):
+        print("DRIFT: iterators: %s on %d recorded states" % (k, c))
+    rep.coverage["iterator_impl_layer"] = {"module": "ViewImpl.tla", "states": n, "drift_by_kind": kinds,
+                                           "what": "IterOrder / ViewOrder transcriptions: contract holds on them and they equal the recorded order of the real iterators"}
+    rep.coverage["states"] = rep.coverage.get("states", 0) + n
+
+
+def edited(rep, args, d, res):
+    if not args.replay:
+        impl_layer(rep, args, res)
     quick = args.tier == "quick"
     if args.replay:
         with open(args.replay) as f:
